@@ -491,10 +491,47 @@ def findall(it, pattern, subject, flags=0):
     return SList(out)
 
 
+def _ws_collapse(it, pattern, repl, s, flags):
+    """re.sub(<one-or-more of a class of blanks>, ' ', s) segment by segment: exact when every
+    uncertain segment is a blank-normal atom (single inner spaces only, no blank at either end)
+    whose concrete neighbours are not blanks -- then no run of blanks crosses a segment border and
+    the atom itself is a fixed point of the substitution."""
+    items, _ = _parse(pattern, flags)
+    if not (len(items) == 1 and items[0][0] is MAX_REPEAT and items[0][1][0] == 1 and
+            items[0][1][1] is MAXREPEAT and len(items[0][1][2]) == 1 and
+            items[0][1][2][0][0] is IN and repl == ' '):
+        return None
+    m = Matcher(it, s, flags)
+    cls = items[0][1][2][0]
+    blank = lambda ch: m.char_ok(cls[0], cls[1], ch)
+    if not blank(' ') or any(not ch.isspace() for ch in ' \t\r\n' if blank(ch)) is None:
+        return None
+    segs = s.segs
+    out = []
+    for i, (g, p) in enumerate(segs):
+        if g is True and isinstance(p, str):
+            out.append((True, re.sub(pattern, repl, p, flags=flags)))
+            continue
+        if not (g is True and isinstance(p, Atom) and p.ws_normal):
+            return None
+        prev = segs[i - 1] if i > 0 else None
+        nxt = segs[i + 1] if i + 1 < len(segs) else None
+        for nb, at in ((prev, -1), (nxt, 0)):
+            if nb is None:
+                continue
+            if not (nb[0] is True and isinstance(nb[1], str)) or blank(nb[1][at]):
+                return None
+        out.append((g, p))
+    return XStr(out).simplify()
+
+
 def sub(it, pattern, repl, subject, flags=0):
     if not isinstance(repl, str) or '\\' in repl:
         raise Undetermined('re.sub with a non-literal replacement')
     s = XStr.lift(subject)
+    r = _ws_collapse(it, pattern, repl, s, flags)
+    if r is not None:
+        return r
     ms = finditer(it, pattern, s, flags)
     if not ms:
         return s.simplify()
